@@ -42,6 +42,26 @@ fn judge<'a, T: DiffableStr + ?Sized + 'a>(d: &'a TextDiff<'a, 'a, 'a, T>, opt: 
                 return Err(format!("{:?}: iter_inline_changes_deadline(op, None) called twice gives different results", op));
             }
         }
+        // only changed words are emphasised: whatever is NOT emphasised on the old side of a Replace is
+        // what is not emphasised on its new side (the words the two sides share), line breaks aside;
+        // judged when the op was refined at all (some segment is emphasised)
+        if is_replace && inline.iter().any(|ic| ic.values().iter().any(|(e, _)| *e)) {
+            let plain_of = |tag: ChangeTag| -> Vec<u8> {
+                inline
+                    .iter()
+                    .filter(|ic| ic.tag() == tag)
+                    .flat_map(|ic| ic.values().iter().filter(|(e, _)| !*e).flat_map(|(_, s)| s.as_bytes().iter().copied()).collect::<Vec<u8>>())
+                    .filter(|b| *b != b'\r' && *b != b'\n')
+                    .collect()
+            };
+            let (po, pn) = (plain_of(ChangeTag::Delete), plain_of(ChangeTag::Insert));
+            if po != pn {
+                return Err(format!(
+                    "{:?}: the un-emphasised text of the deleted lines {:?} differs from the un-emphasised text of the inserted lines {:?} (line breaks aside): something other than the changed words is emphasised, or a changed word is not",
+                    op, escape_bytes(&po), escape_bytes(&pn)
+                ));
+            }
+        }
         if inline.len() != plain.len() {
             return Err(format!("{:?}: inline expansion has {} changes, plain expansion {}", op, inline.len(), plain.len()));
         }
@@ -275,7 +295,7 @@ impl Prop for C16 {
     type Case = TextCase;
     const ID: &'static str = "C16";
     fn rule() -> String {
-        "cases = (old, new, algorithm, str | [u8], construction in {diff_lines, diff_lines with newline_terminated(false|true), diff_slices over the line tokens (with/without newline_terminated(true)), diff_slices over caller-split lines without terminators (blank lines are empty items)}, inline deadline in {None, virtual clock expiring at probe 0..3, real deadline in the past, default iter_inline_changes}); line texts whose lines consist of several words and are mutated at WORD level (replace/insert/delete a word, change the terminator, duplicate/delete a line) so that Replace ops pass both similarity gates; words include multi-byte, combining, emoji, NBSP and (for [u8]) invalid UTF-8 fragments; plus the shared line/text mixtures. Oracle per op: inline tags and old/new indices == plain expansion; segments concatenate to the plain change's line; emphasised segments only in Delete/Insert changes of a Replace op and without CR/LF; missing_newline agrees with the line; no panic. Non-trivial = some line has both an emphasised and a plain segment; distinct = distinct serialized case.".into()
+        "cases = (old, new, algorithm, str | [u8], construction in {diff_lines, diff_lines with newline_terminated(false|true), diff_slices over the line tokens (with/without newline_terminated(true)), diff_slices over caller-split lines without terminators (blank lines are empty items)}, inline deadline in {None, virtual clock expiring at probe 0..3, real deadline in the past, default iter_inline_changes}); line texts whose lines consist of several words and are mutated at WORD level (replace/insert/delete a word, change the terminator, duplicate/delete a line) so that Replace ops pass both similarity gates; words include multi-byte, combining, emoji, NBSP and (for [u8]) invalid UTF-8 fragments; plus the shared line/text mixtures. Oracle per op: inline tags and old/new indices == plain expansion; segments concatenate to the plain change's line; emphasised segments only in Delete/Insert changes of a Replace op and without CR/LF; in a refined Replace the un-emphasised text of the old lines equals the un-emphasised text of the new lines, line breaks aside (only changed words are emphasised); missing_newline agrees with the line; no panic. Non-trivial = some line has both an emphasised and a plain segment; distinct = distinct serialized case.".into()
     }
     fn assumptions() -> Vec<String> {
         vec!["'line-break character' = CR or LF (the crate's own line convention)".into(), "the default 500 ms deadline variant is judged only by invariants that hold whether or not it expires".into()]
